@@ -4,6 +4,7 @@
 //                            encoding-length boundaries); prints JSON with the first failing program
 // Validation decodes the emitted image with the ISA's prefix rule (spec/isa.h), independently of the assembler.
 #include <cstdio>
+#include <cstdlib>
 #include <cstdint>
 #include <cstring>
 #include <fstream>
@@ -20,6 +21,7 @@ extern "C" {
 }
 using namespace hexasm;
 
+static std::string hexScratch(const char *leaf) { const char *b = getenv("HEX_SCRATCH"); return std::string(b && *b ? b : "/var/tmp") + "/" + leaf; } // scratch files live under out/<ID>/scratch (wiped with it)
 struct Verdict { bool accepted; bool ok; std::string why; std::string error; int c05; /* 1 = reference/layout, 2 = listing only */ };
 
 static bool isLabelTok(Token t) { return t == Token::IDENTIFIER || t == Token::FUNC || t == Token::PROC; }
@@ -83,7 +85,7 @@ static Verdict validate(const std::string &source) {
     CodeGen codeGen(program);
     std::ostringstream bin; codeGen.emitProgramBin(bin); img = bin.str();
     std::ostringstream txt; codeGen.emitProgramText(txt); listing = txt.str();
-    char fn[] = "/var/tmp/hexasm_hdr.XXXXXX"; int fd = mkstemp(fn); close(fd);
+    std::string fnS = hexScratch("hexasm_hdr.XXXXXX"); char *fn = &fnS[0]; int fd = mkstemp(fn); close(fd);
     codeGen.emitBin(fn);
     std::ifstream f(fn, std::ios::binary); uint32_t w = 0; f.read(reinterpret_cast<char *>(&w), 4); headerWords = w; f.close(); unlink(fn);
   } catch (std::exception &e) {
